@@ -71,3 +71,122 @@ Proof.
   - intros [= <-] H. now rewrite H.
   - destruct (verify_new_state p0 q); [|discriminate]. apply IH.
 Qed.
+
+(** ** for every sequence of operations: what has been published stays loadable *)
+Definition AInv (s : astate) : Prop :=
+  published_loadable s = true /\ forall e, In e (a_log s) -> (snd e < a_next s)%N.
+
+Lemma latest_entry_in log b t : latest_entry_for log b = Some t -> In (b, t) log.
+Proof.
+  unfold latest_entry_for. destruct (rev (filter (fun e => Bool.eqb (fst e) b) log)) as [|e l] eqn:E; [discriminate|].
+  intros [= <-]. assert (Hin : In e (rev (filter (fun e => Bool.eqb (fst e) b) log))) by (rewrite E; left; reflexivity).
+  apply in_rev in Hin. apply filter_In in Hin. destruct Hin as [Hin Hb]. destruct e as [b' t']. cbn in *.
+  apply Bool.eqb_prop in Hb. subst b'. exact Hin.
+Qed.
+
+Lemma ref_consistent_true r e : ref_consistent r e = Some true -> exists x, r = Some x /\ e = Some x.
+Proof.
+  unfold ref_consistent. destruct r as [x|], e as [y|]; try discriminate.
+  destruct (N.eqb_spec x y); [|discriminate]. intros _. subst y. exists x. auto.
+Qed.
+
+Lemma policy_chain_app_false s c l cs n :
+  policy_chain {| a_policy := s; a_staging := c; a_log := l ++ [(false, n)]; a_commits := cs; a_next := 0%N |}
+  = policy_chain {| a_policy := s; a_staging := c; a_log := l; a_commits := cs; a_next := 0%N |}.
+Proof. unfold policy_chain. cbn [a_log a_commits]. rewrite flat_map_app. cbn. apply app_nil_r. Qed.
+
+Lemma chain_only_log_commits s s' : a_log s = a_log s' -> a_commits s = a_commits s' -> policy_chain s = policy_chain s'.
+Proof. unfold policy_chain. intros -> ->. reflexivity. Qed.
+
+Lemma loadable_only_chain s s' : policy_chain s = policy_chain s' -> published_loadable s = published_loadable s'.
+Proof. unfold published_loadable. intros ->. reflexivity. Qed.
+
+Lemma lookup_pc_fresh cs c p x : x <> c -> lookup_pc ((c, p) :: cs) x = lookup_pc cs x.
+Proof. intros H. cbn. destruct (N.eqb_spec x c); [contradiction|reflexivity]. Qed.
+
+Lemma flat_map_ext_in_local {A B} (f g : A -> list B) l : (forall a, In a l -> f a = g a) -> flat_map f l = flat_map g l.
+Proof.
+  induction l as [|a l IH]; intros H; [reflexivity|]. cbn. rewrite (H a (or_introl eq_refl)), IH; [reflexivity|].
+  intros b Hb. apply H. right. exact Hb.
+Qed.
+
+Lemma reconcile_inv s e s1 : AInv s -> reconcile s = (e, s1) -> AInv s1 /\ (e = None -> ref_consistent (a_staging s1) (latest_entry_for (a_log s1) false) <> None).
+Proof.
+  intros [Hl Hn] H. unfold reconcile in H.
+  destruct (ref_consistent (a_policy s) (latest_entry_for (a_log s) true)) as [bp|] eqn:Ep.
+  2:{ injection H as <- <-. split; [split; assumption|discriminate]. }
+  destruct (ref_consistent (a_staging s) (latest_entry_for (a_log s) false)) as [bs|] eqn:Es.
+  2:{ destruct bp; injection H as <- <-; (split; [split; assumption|discriminate]). }
+  destruct bp.
+  2:{ injection H as <- <-. split; [split; assumption|]. intros _. rewrite Es. discriminate. }
+  destruct bs.
+  2:{ injection H as <- <-. split; [split; assumption|discriminate]. }
+  destruct (a_policy s) as [p|] eqn:Epol; [|injection H as <- <-; split; [split; assumption|discriminate]].
+  destruct (a_staging s) as [st|] eqn:Est; [|injection H as <- <-; split; [split; assumption|discriminate]].
+  destruct (N.eqb p st || descends (a_commits s) (S (List.length (a_commits s))) st p).
+  { injection H as <- <-. split; [split; assumption|]. intros _. rewrite Est, Es. discriminate. }
+  destruct (descends (a_commits s) (S (List.length (a_commits s))) p st).
+  2:{ injection H as <- <-. split; [split; assumption|discriminate]. }
+  injection H as <- <-. split.
+  - split.
+    + rewrite <- Hl. apply loadable_only_chain. unfold policy_chain. cbn [a_log a_commits]. rewrite flat_map_app. cbn. apply app_nil_r.
+    + cbn [a_log a_next]. intros e0 Hin. apply in_app_or in Hin. destruct Hin as [Hin|[<-|[]]]; [apply Hn, Hin|].
+      destruct (ref_consistent_true _ _ Ep) as [x [Hx1 Hx2]]. injection Hx1 as <-. cbn. apply (Hn (true, p)). apply latest_entry_in, Hx2.
+  - intros _. cbn [a_staging a_log]. unfold latest_entry_for. rewrite filter_app, rev_app_distr. cbn.
+    unfold ref_consistent. rewrite N.eqb_refl. discriminate.
+Qed.
+
+Theorem astep_inv s o e s' : AInv s -> astep s o = (e, s') -> AInv s'.
+Proof.
+  intros Hi H. destruct o as [ps| | |c|c]; cbn [astep] in H.
+  - (* stage *) injection H as <- <-. destruct Hi as [Hl Hn]. split.
+    + rewrite <- Hl. apply loadable_only_chain. unfold policy_chain. cbn [a_log a_commits].
+      rewrite flat_map_app. cbn [flat_map fst app]. rewrite app_nil_r.
+      apply flat_map_ext_in_local. intros [b t] Hin. cbn [fst snd]. destruct b; [|reflexivity].
+      rewrite lookup_pc_fresh; [reflexivity|]. specialize (Hn _ Hin). cbn in Hn. lia.
+    + cbn [a_log a_next]. intros e0 Hin. apply in_app_or in Hin. destruct Hin as [Hin|[<-|[]]]; [specialize (Hn _ Hin); lia|cbn; lia].
+  - (* apply *)
+    destruct (reconcile s) as [er s1] eqn:Er. destruct (reconcile_inv s er s1 Hi Er) as [Hi1 Hc].
+    destruct er as [er|]; [injection H as <- <-; exact Hi1|]. specialize (Hc eq_refl).
+    destruct (ref_consistent (a_policy s1) (latest_entry_for (a_log s1) true)); [|injection H as <- <-; exact Hi1].
+    destruct (a_staging s1) as [st|] eqn:Est; [|injection H as <- <-; exact Hi1].
+    destruct (match a_policy s1 with Some p => negb (descends (a_commits s1) (S (List.length (a_commits s1))) st p) | None => false end);
+      [injection H as <- <-; exact Hi1|].
+    destruct (chain_verifies (policy_chain s1)) as [cur|] eqn:Ech; [|injection H as <- <-; exact Hi1].
+    destruct (latest_entry_for (a_log s1) false) as [ste|] eqn:Este; [|injection H as <- <-; exact Hi1].
+    destruct (lookup_pc (a_commits s1) ste) as [staged|] eqn:Els; [|injection H as <- <-; exact Hi1].
+    destruct (state_verify (pc_state staged) && match cur with Some c => verify_new_state c (pc_state staged) | None => true end
+              && match cur with Some c => state_verify c | None => true end) eqn:Eok; [|injection H as <- <-; exact Hi1].
+    injection H as <- <-. destruct Hi1 as [Hl1 Hn1].
+    assert (Hst : ste = st).
+    { unfold ref_consistent in Hc. destruct (N.eqb_spec st ste); [congruence|contradiction]. }
+    subst ste. apply andb_true_iff in Eok. destruct Eok as [Eok E3]. apply andb_true_iff in Eok. destruct Eok as [E1 E2].
+    split.
+    + unfold published_loadable, policy_chain. cbn [a_log a_commits]. rewrite flat_map_app. cbn [flat_map fst snd app].
+      rewrite Els. cbn [app]. fold (policy_chain s1).
+      unfold chain_verifies in *. destruct (policy_chain s1) as [|[k p0] rest].
+      * cbn. exact E1.
+      * destruct (chain_ok p0 rest) as [last|] eqn:Eco; [|discriminate]. injection Ech as <-.
+        cbn [app]. rewrite (chain_ok_snoc rest p0 last 0 (pc_state staged) Eco E2). exact E1.
+    + cbn [a_log a_next]. intros e0 Hin. apply in_app_or in Hin. destruct Hin as [Hin|[<-|[]]]; [apply Hn1, Hin|].
+      cbn. apply (Hn1 (false, st)). apply latest_entry_in, Este.
+  - injection H as <- <-. destruct Hi as [Hl Hn]. split; [rewrite <- Hl; apply loadable_only_chain; reflexivity|exact Hn].
+  - injection H as <- <-. destruct Hi as [Hl Hn]. split; [rewrite <- Hl; apply loadable_only_chain; reflexivity|exact Hn].
+  - injection H as <- <-. destruct Hi as [Hl Hn]. split; [rewrite <- Hl; apply loadable_only_chain; reflexivity|exact Hn].
+Qed.
+
+Theorem arun_inv : forall ops s es s', AInv s -> arun s ops = (es, s') -> AInv s'.
+Proof.
+  induction ops as [|o ops IH]; intros s es s' Hi H; cbn [arun] in H; [injection H as _ <-; exact Hi|].
+  destruct (astep s o) as [e s1] eqn:Es. destruct (arun s1 ops) as [es2 s2] eqn:Er. injection H as _ <-.
+  apply (IH s1 es2 s2); [apply (astep_inv _ _ _ _ Hi Es)|exact Er].
+Qed.
+
+Lemma a_init_inv : AInv a_init.
+Proof. split; [reflexivity|intros e []]. Qed.
+
+(** whatever sequence of staging, applying, discarding and direct tampering of the two policy
+    references is performed on a fresh repository, the policy entries recorded in the log always
+    form a chain that LoadCurrentState accepts *)
+Theorem published_always_loadable ops es s : arun a_init ops = (es, s) -> published_loadable s = true.
+Proof. intros H. exact (proj1 (arun_inv ops a_init es s a_init_inv H)). Qed.
